@@ -1,12 +1,11 @@
-import sys,json
+import sys,json,os
 sys.path.insert(0,'/verif')
 from vf.core import *
 from props.methods import *
 b=Build('t3')
 names=sys.argv[1:] or ["md5crypt"]
-qs=[method_query(BY_NAME[n],"m-"+n,timeout=int(__import__('os').environ.get('TO','300'))) for n in names]
-for q in qs: q.flags=["--verbosity","9"]
+qs=[method_query(BY_NAME[n],"m-"+n,timeout=int(os.environ.get('TO','300'))) for n in names]
 rs=run_queries(b,qs)
 for r in rs:
     print(r.name,r.status,r.detail[:300])
-    for f in r.failures[:4]: print(r.name,f['property'],f['description'],f['location'].get('line'),{k:v for k,v in f['inputs'].items()})
+    for f in r.failures[:4]: print(r.name,f['property'],f['description'],f['location'].get('line'),str(f['inputs'])[:300])
